@@ -430,6 +430,11 @@ const GRID: [usize; 12] = [
 ];
 
 fn src_call(method: &str, a: usize, b: usize, ent: &Ent) -> String {
+    let r = std::panic::catch_unwind(std::panic::AssertUnwindSafe(|| src_call_inner(method, a, b, ent)));
+    r.unwrap_or_else(|_| format!("src method={} a={} b={} ent={} result=panic left=0", method, a, b, ent.tag()))
+}
+
+fn src_call_inner(method: &str, a: usize, b: usize, ent: &Ent) -> String {
     let (r, left) = ent.with(|s| match method {
         "choose_index" => format!("{}", s.choose_index(a)),
         "gen_bool" => format!("{}", s.gen_bool() as u8),
